@@ -251,4 +251,393 @@ theorem mem_sortProps {ps : Props} {kv : Str × Str} : kv ∈ sortProps ps ↔ k
 theorem sortProps_keys_nodup (ps : Props) (h : (ps.map (·.1)).Nodup) : ((sortProps ps).map (·.1)).Nodup :=
   ((sortProps_perm ps).map (·.1)).nodup_iff.mpr h
 
+/-! ### the triples of one node -/
+
+theorem foldTriples_append (st st' : PState) (a b : List Triple) (h : foldTriples st a = .ok st') :
+    foldTriples st (a ++ b) = foldTriples st' b := by
+  induction a generalizing st with
+  | nil =>
+    simp only [foldTriples, Except.ok.injEq] at h
+    subst h
+    rfl
+  | cons t a ih =>
+    simp only [foldTriples, List.cons_append] at h ⊢
+    cases hs : stepTriple st t with
+    | error e => rw [hs] at h; cases h
+    | ok st1 =>
+      rw [hs] at h
+      exact ih st1 h
+
+theorem foldTriples_single (st st' : PState) (t : Triple) (h : stepTriple st t = .ok st') :
+    foldTriples st [t] = .ok st' := by
+  simp [foldTriples, h]
+
+theorem keys_nodup_of_lower (ps : Props) (h : (ps.map (fun kv => lower kv.1)).Nodup) : (ps.map (·.1)).Nodup := by
+  have h2 : ps.map (fun kv => lower kv.1) = (ps.map (·.1)).map lower := by
+    simp [List.map_map, Function.comp_def]
+  rw [h2] at h
+  exact nodup_of_map _ _ h
+
+theorem fold_props (top : Option Str) (pre : List PNode) (edges : List (Str × Str × Str × Str)) (v : Str)
+    (hv : ∀ m ∈ pre, m.var ≠ v) (ps : Props) (pn : PNode) (hp : pn.var = v)
+    (hk : ∀ kv ∈ ps, lower kv.1 ≠ S "instance" ∧ lower kv.1 ≠ S "lnk" ∧ lower kv.1 ≠ S "carg" ∧
+              lower kv.1 ≠ CVARSORT ∧ (lower kv.1).head? ≠ some ':')
+    (hl : ∀ kv ∈ ps, isLowerStr (lower kv.1) = true)
+    (hrt : ∀ kv ∈ ps, upper (lower kv.1) = kv.1) :
+    foldTriples { top := top, nodes := pre ++ [pn], edges := edges }
+        (ps.map (fun kv => (v, ':' :: lower kv.1, kv.2))) =
+      .ok { top := top,
+            nodes := pre ++ [{ pn with props := ps.foldl (fun acc kv => dset kv.1 kv.2 acc) pn.props }],
+            edges := edges } := by
+  induction ps generalizing pn with
+  | nil => rfl
+  | cons kv ps ih =>
+    have h1 := step_prop top pre pn edges v (lower kv.1) kv.2 hv hp (hk kv (by simp)) (hl kv (by simp))
+    rw [hrt kv (by simp)] at h1
+    simp only [List.map_cons, foldTriples, h1, List.foldl_cons]
+    exact ih { pn with props := dset kv.1 kv.2 pn.props } hp
+      (fun x hx => hk x (by simp [hx])) (fun x hx => hl x (by simp [hx])) (fun x hx => hrt x (by simp [hx]))
+
+/-- the record `from_triples` holds for a node after reading its triples -/
+def pnodeOf (o : Opts) (v : Str) (n : Node) : PNode :=
+  { var := v, pred := some n.pred,
+    lnk := if o.lnk && n.lnk.truthy then n.lnk else .unspec,
+    type := (match n.type with | some (c :: r) => some (c :: r) | _ => none),
+    props := if o.properties then sortProps n.props else [],
+    carg := n.carg }
+
+theorem part_lnk (o : Opts) (n : Node) (hn : NodeOKP n) (top : Option Str) (pre : List PNode) (pn : PNode)
+    (edges : List (Str × Str × Str × Str)) (v : Str) (hv : ∀ m ∈ pre, m.var ≠ v) (hp : pn.var = v) :
+    foldTriples { top := top, nodes := pre ++ [pn], edges := edges }
+        (if o.lnk && n.lnk.truthy then [(v, S ":lnk", '"' :: n.lnk.str ++ ['"'])] else []) =
+      .ok { top := top,
+            nodes := pre ++ [{ pn with lnk := if o.lnk && n.lnk.truthy then n.lnk else pn.lnk }],
+            edges := edges } := by
+  by_cases hc : (o.lnk && n.lnk.truthy) = true
+  · simp only [hc, if_true]
+    rcases hn.lnkSpan with h | ⟨a, b, h⟩
+    · rw [h] at hc
+      simp [Lnk.truthy] at hc
+    · rw [h]
+      exact foldTriples_single _ _ _ (step_lnk top pre pn edges v a b hv hp)
+  · simp only [hc]
+    rfl
+
+theorem part_carg (n : Node) (top : Option Str) (pre : List PNode) (pn : PNode)
+    (edges : List (Str × Str × Str × Str)) (v : Str) (hv : ∀ m ∈ pre, m.var ≠ v) (hp : pn.var = v) :
+    foldTriples { top := top, nodes := pre ++ [pn], edges := edges }
+        (match n.carg with | some c => [(v, S ":carg", '"' :: escapeDQ c ++ ['"'])] | none => []) =
+      .ok { top := top,
+            nodes := pre ++ [{ pn with carg := (match n.carg with | some c => some c | none => pn.carg) }],
+            edges := edges } := by
+  cases n.carg with
+  | none => rfl
+  | some c => exact foldTriples_single _ _ _ (step_carg top pre pn edges v c hv hp)
+
+theorem part_type (n : Node) (top : Option Str) (pre : List PNode) (pn : PNode)
+    (edges : List (Str × Str × Str × Str)) (v : Str) (hv : ∀ m ∈ pre, m.var ≠ v) (hp : pn.var = v) :
+    foldTriples { top := top, nodes := pre ++ [pn], edges := edges }
+        (match n.type with | some (c :: r) => [(v, ':' :: CVARSORT, c :: r)] | _ => []) =
+      .ok { top := top,
+            nodes := pre ++ [{ pn with type := (match n.type with | some (c :: r) => some (c :: r) | _ => pn.type) }],
+            edges := edges } := by
+  cases n.type with
+  | none => rfl
+  | some t =>
+    cases t with
+    | nil => rfl
+    | cons c r => exact foldTriples_single _ _ _ (step_type top pre pn edges v (c :: r) hv hp)
+
+theorem part_props (o : Opts) (n : Node) (hn : NodeOKP n) (top : Option Str) (pre : List PNode) (pn : PNode)
+    (edges : List (Str × Str × Str × Str)) (v : Str) (hv : ∀ m ∈ pre, m.var ≠ v) (hp : pn.var = v)
+    (he : pn.props = []) :
+    foldTriples { top := top, nodes := pre ++ [pn], edges := edges }
+        (if o.properties then (sortProps (pyDict n.props)).map (fun kv => (v, ':' :: lower kv.1, kv.2)) else []) =
+      .ok { top := top,
+            nodes := pre ++ [{ pn with props := if o.properties then sortProps n.props else [] }],
+            edges := edges } := by
+  have hkeys := keys_nodup_of_lower n.props hn.keys
+  by_cases hc : o.properties = true
+  · simp only [hc, if_true]
+    rw [pyDict_of_nodup n.props hkeys]
+    rw [fold_props top pre edges v hv (sortProps n.props) pn hp
+      (fun kv h => hn.keyFree kv (mem_sortProps.mp h))
+      (fun kv h => hn.keyLower kv (mem_sortProps.mp h))
+      (fun kv h => hn.keyRT kv (mem_sortProps.mp h))]
+    rw [he, foldl_dset (sortProps n.props) [] (by simpa using sortProps_keys_nodup n.props hkeys)]
+    simp
+  · simp only [hc]
+    rw [← he]
+    rfl
+
+theorem fold_node (o : Opts) (n : Node) (hn : NodeOKP n) (top : Option Str) (pre : List PNode)
+    (edges : List (Str × Str × Str × Str)) (v : Str) (hv : ∀ m ∈ pre, m.var ≠ v) :
+    foldTriples { top := top, nodes := pre, edges := edges } (nodeTriples o v n) =
+      .ok { top := topAfter top v, nodes := pre ++ [pnodeOf o v n], edges := edges } := by
+  unfold nodeTriples
+  simp only [List.append_assoc]
+  rw [foldTriples_append _ _ _ _ (foldTriples_single _ _ _ (step_instance top pre edges v n.pred hv))]
+  rw [foldTriples_append _ _ _ _ (part_lnk o n hn _ pre _ edges v hv rfl)]
+  refine (foldTriples_append _ _ _ _ (part_carg n _ pre _ edges v hv rfl)).trans ?_
+  refine (foldTriples_append _ _ _ _ (part_type n _ pre _ edges v hv rfl)).trans ?_
+  refine (part_props o n hn _ pre _ edges v hv rfl rfl).trans ?_
+  unfold pnodeOf
+  cases n.carg <;> rfl
+
+/-! ### all nodes, all links -/
+
+def topAfterL (top : Option Str) (vs : List Str) : Option Str :=
+  match top with | some x => some x | none => vs.head?
+
+theorem fold_nodes (o : Opts) (vn : Int → Str) (ns : List Node) (hn : ∀ n ∈ ns, NodeOKP n)
+    (top : Option Str) (pre : List PNode) (edges : List (Str × Str × Str × Str))
+    (hnd : (pre.map (·.var) ++ ns.map (fun n => vn n.id)).Nodup) (rest : List Triple) :
+    foldTriples { top := top, nodes := pre, edges := edges }
+        (ns.flatMap (fun n => nodeTriples o (vn n.id) n) ++ rest) =
+      foldTriples { top := topAfterL top (ns.map (fun n => vn n.id)),
+                    nodes := pre ++ ns.map (fun n => pnodeOf o (vn n.id) n), edges := edges } rest := by
+  induction ns generalizing top pre with
+  | nil =>
+    have : topAfterL top [] = top := by cases top <;> rfl
+    simp [this]
+  | cons n ns ih =>
+    have hv : ∀ m ∈ pre, m.var ≠ vn n.id := by
+      intro m hm e
+      have h1 := (List.nodup_append.mp hnd).2.2 m.var (List.mem_map_of_mem hm) (vn n.id) (by simp)
+      exact h1 e
+    have hnd' : ((pre ++ [pnodeOf o (vn n.id) n]).map (·.var) ++ ns.map (fun n => vn n.id)).Nodup := by
+      simpa [pnodeOf] using hnd
+    simp only [List.flatMap_cons, List.append_assoc]
+    rw [foldTriples_append _ _ _ _ (fold_node o n (hn n (by simp)) top pre edges (vn n.id) hv)]
+    rw [ih (fun x hx => hn x (by simp [hx])) _ _ hnd']
+    have ht : topAfterL (topAfter top (vn n.id)) (ns.map (fun n => vn n.id)) =
+        topAfterL top ((n :: ns).map (fun n => vn n.id)) := by cases top <;> rfl
+    rw [ht]
+    simp
+
+def roleOf (l : Link) : Str := l.role.getD []
+def postOf (l : Link) : Str := l.post.getD []
+def linkTriple (vn : Int → Str) (l : Link) : Triple :=
+  (vn l.start, ':' :: roleOf l ++ '-' :: postOf l, vn l.stop)
+
+theorem fold_links (vn : Int → Str) (ls : List Link) (hl : ∀ l ∈ ls, LinkOKP l)
+    (top : Option Str) (nodes : List PNode) (edges : List (Str × Str × Str × Str))
+    (hs : ∀ l ∈ ls, nodes.any (fun n => decide (n.var = vn l.start)) = true) :
+    foldTriples { top := top, nodes := nodes, edges := edges } (ls.map (linkTriple vn)) =
+      .ok { top := top, nodes := nodes,
+            edges := edges ++ ls.map (fun l => (vn l.start, vn l.stop, roleOf l, postOf l)) } := by
+  induction ls generalizing edges with
+  | nil => simp [foldTriples]
+  | cons l ls ih =>
+    obtain ⟨r, hr, _, hhead⟩ := (hl l (by simp)).role
+    obtain ⟨p, hp, hdash⟩ := (hl l (by simp)).post
+    have hnl := (hl l (by simp)).notLower r p hr hp
+    have hr' : roleOf l = r := by simp [roleOf, hr]
+    have hp' : postOf l = p := by simp [postOf, hp]
+    have h1 := step_edge { top := top, nodes := nodes, edges := edges } (vn l.start) (vn l.stop) r p
+      (hs l (by simp)) hhead hdash hnl
+    simp only [List.map_cons, foldTriples, linkTriple, hr', hp', h1]
+    rw [← hr', ← hp']
+    have := ih (fun x hx => hl x (by simp [hx])) (edges ++ [(vn l.start, vn l.stop, roleOf l, postOf l)])
+      (fun x hx => hs x (by simp [hx]))
+    rw [this]
+    simp
+
+/-! ### the variable map -/
+
+def idStep (d : DMRS) (acc : List (Int × Str)) (p : Nat × Node) : List (Int × Str) :=
+  if acc.any (fun q => q.1 = p.2.id) then
+    acc.map (fun q => if q.1 = p.2.id then (p.2.id, varName d p.1 p.2) else q)
+  else acc ++ [(p.2.id, varName d p.1 p.2)]
+
+theorem idMap_eq_foldl (d : DMRS) : idMap d = (enumFrom1 1 d.nodes).foldl (idStep d) [] := rfl
+
+theorem idStep_keys (d : DMRS) (acc : List (Int × Str)) (p : Nat × Node) (k : Int)
+    (h : k ∈ acc.map (·.1) ∨ k = p.2.id) : k ∈ (idStep d acc p).map (·.1) := by
+  unfold idStep
+  by_cases hany : acc.any (fun q => decide (q.1 = p.2.id)) = true
+  · simp only [hany, if_true]
+    have hk : (acc.map (fun q => if q.1 = p.2.id then (p.2.id, varName d p.1 p.2) else q)).map (·.1) =
+        acc.map (·.1) := by
+      rw [List.map_map]
+      apply List.map_congr_left
+      intro q _
+      simp only [Function.comp]
+      split
+      · rename_i e; exact e.symm
+      · rfl
+    rw [hk]
+    rcases h with h | h
+    · exact h
+    · obtain ⟨q, hq, hqe⟩ := List.any_eq_true.mp hany
+      have : q.1 = p.2.id := by simpa using hqe
+      rw [h, ← this]
+      exact List.mem_map_of_mem hq
+  · simp only [hany]
+    simp only [Bool.false_eq_true, if_false, List.map_append, List.map_cons, List.map_nil, List.mem_append,
+      List.mem_singleton]
+    exact h
+
+theorem foldl_idStep_keys (d : DMRS) (ps : List (Nat × Node)) (acc : List (Int × Str)) (k : Int)
+    (h : k ∈ acc.map (·.1) ∨ k ∈ ps.map (·.2.id)) : k ∈ (ps.foldl (idStep d) acc).map (·.1) := by
+  induction ps generalizing acc with
+  | nil => simpa using h
+  | cons p ps ih =>
+    simp only [List.foldl_cons]
+    apply ih
+    rcases h with h | h
+    · exact Or.inl (idStep_keys d acc p k (Or.inl h))
+    · simp only [List.map_cons, List.mem_cons] at h
+      rcases h with h | h
+      · exact Or.inl (idStep_keys d acc p k (Or.inr h))
+      · exact Or.inr h
+
+theorem enumFrom1_ids (i : Nat) (l : List Node) : (enumFrom1 i l).map (·.2.id) = l.map (·.id) := by
+  induction l generalizing i with
+  | nil => rfl
+  | cons a l ih => simp [enumFrom1, ih]
+
+theorem idMap_keys (d : DMRS) (k : Int) (h : k ∈ d.nodes.map (·.id)) : k ∈ (idMap d).map (·.1) := by
+  rw [idMap_eq_foldl]
+  apply foldl_idStep_keys
+  right
+  rw [enumFrom1_ids]
+  exact h
+
+theorem idGet_cons (q : Int × Str) (m : List (Int × Str)) (k : Int) :
+    idGet (q :: m) k = if q.1 = k then some q.2 else idGet m k := by
+  unfold idGet
+  by_cases h : q.1 = k <;> simp [h]
+
+theorem idGet_of_key (m : List (Int × Str)) (k : Int) (h : k ∈ m.map (·.1)) : ∃ v, idGet m k = some v := by
+  induction m with
+  | nil => simp at h
+  | cons q m ih =>
+    rw [idGet_cons]
+    by_cases hq : q.1 = k
+    · exact ⟨q.2, by simp [hq]⟩
+    · simp only [hq, if_false]
+      apply ih
+      simp only [List.map_cons, List.mem_cons] at h
+      rcases h with h | h
+      · exact absurd h.symm hq
+      · exact h
+
+theorem idGet_mem (m : List (Int × Str)) (k : Int) (v : Str) (h : idGet m k = some v) : v ∈ m.map (·.2) := by
+  induction m with
+  | nil => simp [idGet] at h
+  | cons q m ih =>
+    rw [idGet_cons] at h
+    by_cases hq : q.1 = k
+    · simp only [hq, if_true, Option.some.injEq] at h
+      simp [h]
+    · simp only [hq, if_false] at h
+      simp [ih h]
+
+theorem idGet_inj (m : List (Int × Str)) (hnd : (m.map (·.2)).Nodup) (a b : Int) (v : Str)
+    (ha : idGet m a = some v) (hb : idGet m b = some v) : a = b := by
+  induction m with
+  | nil => simp [idGet] at ha
+  | cons q m ih =>
+    simp only [List.map_cons, List.nodup_cons] at hnd
+    rw [idGet_cons] at ha hb
+    by_cases hqa : q.1 = a <;> by_cases hqb : q.1 = b
+    · rw [← hqa, ← hqb]
+    · simp only [hqa, if_true, Option.some.injEq] at ha
+      simp only [hqb, if_false] at hb
+      rw [← ha] at hb
+      exact absurd (idGet_mem m b q.2 hb) hnd.1
+    · simp only [hqb, if_true, Option.some.injEq] at hb
+      simp only [hqa, if_false] at ha
+      rw [← hb] at ha
+      exact absurd (idGet_mem m a q.2 ha) hnd.1
+    · simp only [hqa, if_false] at ha
+      simp only [hqb, if_false] at hb
+      exact ih hnd.2 ha hb
+
+/-- the variable of node `i` -/
+def vname (d : DMRS) (i : Int) : Str := (idGet (idMap d) i).getD []
+
+theorem idGet_vname (d : DMRS) (i : Int) (h : i ∈ d.nodes.map (·.id)) :
+    idGet (idMap d) i = some (vname d i) := by
+  obtain ⟨v, hv⟩ := idGet_of_key (idMap d) i (idMap_keys d i h)
+  simp [vname, hv]
+
+theorem vname_inj (d : DMRS) (hx : ExpressibleP d) (a b : Int) (ha : a ∈ d.nodes.map (·.id))
+    (hb : b ∈ d.nodes.map (·.id)) (h : vname d a = vname d b) : a = b := by
+  have h1 := idGet_vname d a ha
+  have h2 := idGet_vname d b hb
+  rw [← h] at h2
+  exact idGet_inj (idMap d) hx.vars a b _ h1 h2
+
+/-! ### the encoder's output -/
+
+def keptLinks (d : DMRS) : List Link :=
+  d.links.filter (fun l => l.start ∈ mainComponent d && l.stop ∈ mainComponent d)
+
+theorem flatMap_nodes (o : Opts) (m : List (Int × Str)) (vn : Int → Str) (comp : List Int) (L : List Node)
+    (hL : ∀ n ∈ L, idGet m n.id = some (vn n.id)) :
+    L.flatMap (fun n =>
+      if n.id ∈ comp then (match idGet m n.id with | some v => nodeTriples o v n | none => []) else []) =
+    (L.filter (fun n => n.id ∈ comp)).flatMap (fun n => nodeTriples o (vn n.id) n) := by
+  induction L with
+  | nil => rfl
+  | cons n L ih =>
+    have ih' := ih (fun x hx => hL x (by simp [hx]))
+    have h1 := hL n (by simp)
+    by_cases hc : n.id ∈ comp
+    · simp only [List.flatMap_cons, List.filter_cons, hc, decide_true, if_true, h1, ih']
+    · simp only [List.flatMap_cons, List.filter_cons, hc, decide_false, if_false, ih', List.nil_append,
+        Bool.false_eq_true]
+
+theorem filterMap_links (m : List (Int × Str)) (vn : Int → Str) (L : List Link)
+    (hL : ∀ l ∈ L, idGet m l.start = some (vn l.start) ∧ idGet m l.stop = some (vn l.stop) ∧ LinkOKP l) :
+    L.filterMap (fun l =>
+      match idGet m l.start, idGet m l.stop, l.role with
+      | some s, some t, some r => some (s, ':' :: upper r ++ '-' :: fmtOpt l.post, t)
+      | _, _, _ => none) = L.map (linkTriple vn) := by
+  induction L with
+  | nil => rfl
+  | cons l L ih =>
+    have ih' := ih (fun x hx => hL x (by simp [hx]))
+    obtain ⟨h1, h2, h3⟩ := hL l (by simp)
+    obtain ⟨r, hr, hup, _⟩ := h3.role
+    obtain ⟨p, hp, _⟩ := h3.post
+    simp only [List.filterMap_cons, h1, h2, hr, List.map_cons, linkTriple, roleOf, postOf, hp, hup,
+      Option.getD_some]
+    rw [ih']
+    rfl
+
+theorem toTriples_eq (o : Opts) (d : DMRS) (hx : ExpressibleP d) :
+    toTriples o d = .ok ((pOrder d).flatMap (fun n => nodeTriples o (vname d n.id) n) ++
+      (keptLinks d).map (linkTriple (vname d))) := by
+  have g1 : (d.links.any fun l => decide (l.start ∉ d.nodes.map (·.id)) || decide (l.stop ∉ d.nodes.map (·.id))) = false := by
+    rw [List.any_eq_false]
+    intro l hl
+    have := hx.ends l hl
+    simp [this.1, this.2]
+  have g2 : ((d.links.filter (fun l => decide (l.start ∈ mainComponent d) && decide (l.stop ∈ mainComponent d))).any
+      (fun l => l.role.isNone)) = false := by
+    rw [List.any_eq_false]
+    intro l hl
+    obtain ⟨r, hr, _⟩ := (hx.links l (List.mem_filter.mp hl).1).role
+    simp [hr]
+  have hA := flatMap_nodes o (idMap d) (vname d) (mainComponent d)
+    (d.nodes.filter (fun n => d.top = some n.id) ++ d.nodes.filter (fun n => d.top ≠ some n.id))
+    (by
+      intro n hn
+      apply idGet_vname
+      rcases List.mem_append.mp hn with h | h
+      · exact List.mem_map_of_mem (List.mem_filter.mp h).1
+      · exact List.mem_map_of_mem (List.mem_filter.mp h).1)
+  have hB := filterMap_links (idMap d) (vname d) (keptLinks d)
+    (by
+      intro l hl
+      have hl' := (List.mem_filter.mp hl).1
+      exact ⟨idGet_vname d _ (hx.ends l hl').1, idGet_vname d _ (hx.ends l hl').2, hx.links l hl'⟩)
+  unfold toTriples
+  simp only [g1, g2, Bool.false_eq_true, if_false]
+  refine congrArg Except.ok ?_
+  exact congr (congrArg _ hA) hB
+
 end Verif.C02
